@@ -14,6 +14,7 @@ RULE = ('CTC matrices as in C02 (T 1-8, C 3-5) x history-dependent LMs (toy LM w
         'LMWrapper) x LM scale in {0,0.1,0.5,1,2,3} x insertion bonus {0,0.3,1} x k in {1,2,4,8} x end-of-line modelling on/off x supplied initial state or not. '
         'non-trivial = >= 2 hypotheses with different LM scores; distinct = hash of (matrix, LM seed, parameters) The returned bag is re-weighted (lm_weight) after a query and queried again; the same hypotheses at score levels -800 / -3000 / +800. An alphabet with a two-character symbol (homographs); an LM arriving in training mode with dropout; beams of 1100-2100 prefixes.')
 RULE += ' Round 6: Decoders built by decoder_factory from a configuration at LM scales 0 / 0.5 / 2; vocabularies that list the line-end symbol first.'
+RULE += ' Round 7: Start state 0; the LM file replaced between factory builds; model parameters loaded in place into a long-lived decoder\'s LM.'
 ASSUMPTIONS = ['LM scores are compared within 1e-8 (float64 LMs)', 'ties of the final arg-max (two best totals within 1e-9) are skipped as ambiguous',
                'the "LM state returned" is compared with the state after the arg-max transcript from the same start state']
 N = {'quick': 1600, 'thorough': 60000}
